@@ -105,6 +105,26 @@ func main() {
 		}
 		fmt.Printf("[%.1fs] loaded %d packages (%d root), %d files in root packages, %d source functions\n", time.Since(rep.start).Seconds(), len(ctx.AllPkgs), len(ctx.Pkgs), ctx.NumFiles, len(ctx.SrcFuncs))
 		run(ctx, rep)
+		if *tier == "thorough" {
+			// second build configuration: the developer-mode build (cb_sg_devmode) swaps three files of base and db
+			configs := []string{"default"}
+			for _, tags := range []string{"cb_sg_devmode"} {
+				ctx2, err := loadProgram(*repo, *tier, overlay, tags)
+				if err != nil {
+					rep.Rule("plumbing", "core", "the working tree must load and type-check", 0)
+					rep.Fail("plumbing", "load tags="+tags, "-", err.Error())
+					continue
+				}
+				rep2 := NewReport(*prop, *tier, seed)
+				run(ctx2, rep2)
+				rep2.vacuity()
+				added := rep.Merge(rep2, "[tags="+tags+"] ")
+				configs = append(configs, tags)
+				fmt.Printf("[%.1fs] build configuration tags=%s: %d files, %d functions, %d obligations (%d differ from the default configuration)\n", time.Since(rep.start).Seconds(), tags, ctx2.NumFiles, len(ctx2.SrcFuncs), len(rep2.Obls), added)
+				rep.Extra["config_"+tags] = map[string]any{"files_analysed": ctx2.NumFiles, "functions_analysed": len(ctx2.SrcFuncs), "obligations": len(rep2.Obls), "obligations_differing_from_default": added}
+			}
+			rep.Extra["build_configurations"] = configs
+		}
 		return rep.Finish(vdir, ctx, *only)
 	}()
 	os.Exit(code)
